@@ -7,7 +7,9 @@ use slac::{Expression as E, Operator as O, Value as V};
 pub const NUMS: &[f64] = &[0.0, -0.0, 1.0, -1.0, 0.5, -0.5, 2.5, -2.5, 3.0, -3.0, 9.5, 10.0, 1e300, -1e300, f64::MAX,
     f64::MIN_POSITIVE, 5e-324, -5e-324, f64::INFINITY, f64::NEG_INFINITY, f64::NAN, 9007199254740993.0,
     4503599627370496.5, 0.1, 0.30000000000000004, 86400000.0, 1e-7, 123456.789, 7.0, -7.0, 2.0, 9007199254740992.0,
-    -9007199254740992.0, 1.5, -1.5, 255.0, 127.0, 128.0, 65.0, 4294967296.0, 1e19, -1e19, 0.49999999999999994];
+    -9007199254740992.0, 1.5, -1.5, 255.0, 127.0, 128.0, 65.0, 4294967296.0, 1e19, -1e19, 0.49999999999999994,
+    // integer-type limits: i64::MIN/MAX+1, i32 limits, u32::MAX, 2^64 (casts, integer fast paths, saturation)
+    -9223372036854775808.0, 9223372036854775808.0, 2147483648.0, -2147483648.0, 2147483647.0, 4294967295.0, 18446744073709551616.0, -2147483649.0];
 pub const STRS: &[&str] = &["", "a", "abc", "9", "10", "9.5", "-0", "1e3", " 1", "nan", "NaN", "inf", "-inf", "+1", ".5", "5.", "1.",
     "0x10", "1_0", "ä", "äb", "z", "A", "true", "1e400", "1e-400", "0.1", "00", "-", "+", ".", "e5", "1e", "1e+", "infinity",
     "Infinity", "INF", "1.5e-3", "١", "0", "1", "false", "a'b", "{x}", "//", "aaa", "aa", "äöü", "e\u{301}", "𝄞x", " ", "\n", "Hello World"];
@@ -111,7 +113,7 @@ pub fn gen_tree(r: &mut Rng, depth: u32, ill: bool) -> E {
 pub fn operand_pool() -> Vec<E> {
     let mut p: Vec<E> = vec![
         V::Boolean(true), V::Boolean(false), V::Number(0.0), V::Number(-0.0), V::Number(1.0), V::Number(-7.0), V::Number(2.0),
-        V::Number(2.5), V::Number(f64::NAN), V::Number(f64::INFINITY), V::Number(5e-324), V::String(String::new()),
+        V::Number(2.5), V::Number(f64::NAN), V::Number(f64::INFINITY), V::Number(5e-324), V::Number(-1.0), V::Number(-9223372036854775808.0), V::String(String::new()),
         V::String("a".into()), V::String("1".into()), V::String("9".into()), V::String("10".into()), V::String("nan".into()),
         V::Array(vec![]), V::Array(vec![V::Number(1.0)]), V::Array(vec![V::Array(vec![])]), V::Array(vec![V::String("1".into()), V::Boolean(true)]),
     ].into_iter().map(lit).collect();
@@ -147,6 +149,35 @@ pub fn table_case(i: usize) -> Option<E> {
 pub fn table_len() -> usize { let n = operand_pool().len(); 17 * n * n + 17 * n + 17 * n * 3 }
 
 /// a tree nested to exactly `depth` levels along one spine (ill-formed operators allowed), small random siblings
+/// a tree with ONE regular spine of `depth` levels (unary chain, left/right operator chain, else-if chain, then-chain, nested arrays,
+/// nested calls, nested if_then calls, or a mix) ending in a leaf that matters to the tree functions: a non-Boolean literal, an undefined
+/// variable, an unknown function, an impure call, a NaN. Depth guards, recursion limits and "give up below level N" shortcuts show here.
+pub fn gen_spine_tree(r: &mut Rng, depth: u32) -> E {
+    let shape = r.below(10);
+    let leaf = match r.below(8) { 0 => lit(V::Number(42.0)), 1 => lit(V::Boolean(r.chance(1, 2))), 2 => E::Variable { name: "nope_undefined".into() },
+        3 => E::Call { name: "nofn".into(), params: vec![] }, 4 => lit(V::Array(vec![V::Number(1.0)])), 5 => lit(V::String("s".into())),
+        6 => E::Call { name: { let n = *r.pick(FN_NAMES); n.to_string() }, params: vec![lit(V::Number(1.0))] }, _ => gen_tree(r, 1, false) };
+    let op = *r.pick(&[O::And, O::Or, O::Plus, O::Equal, O::Xor, O::Less]);
+    let cond_lit = r.chance(3, 4);
+    let mut e = leaf;
+    for _ in 0..depth {
+        let side = |r: &mut Rng| -> E { match r.below(4) { 0 => lit(V::Boolean(true)), 1 => lit(V::Boolean(false)), 2 => lit(V::Number(1.0)), _ => E::Variable { name: (*r.pick(&["a", "T", "x"])).to_string() } } };
+        let cond = |_r: &mut Rng, want: bool| -> E { if cond_lit { lit(V::Boolean(want)) } else { E::Variable { name: (if want { "T" } else { "F" }).to_string() } } };
+        let k = if shape == 9 { r.below(9) } else { shape };
+        e = match k {
+            0 => E::Unary { right: bx(e), operator: O::Not },
+            1 => E::Unary { right: bx(e), operator: O::Minus },
+            2 => E::Binary { left: bx(e), right: bx(side(r)), operator: op },
+            3 => E::Binary { left: bx(side(r)), right: bx(e), operator: op },
+            4 => E::Ternary { left: bx(cond(r, false)), middle: bx(lit(V::Boolean(true))), right: bx(e), operator: O::TernaryCondition },   // else-if chain
+            5 => E::Ternary { left: bx(cond(r, true)), middle: bx(e), right: bx(lit(V::Boolean(false))), operator: O::TernaryCondition },    // then chain
+            6 => E::Array { expressions: vec![e] },
+            7 => E::Call { name: "if_then".into(), params: vec![cond(r, true), e, lit(V::Boolean(false))] },
+            _ => E::Call { name: { let n = *r.pick(FN_NAMES); n.to_string() }, params: vec![e] },
+        };
+    }
+    e
+}
 pub fn gen_deep_tree(r: &mut Rng, depth: u32) -> E {
     if depth == 0 { return gen_tree(r, 0, true); }
     let inner = gen_deep_tree(r, depth - 1);
